@@ -160,6 +160,10 @@ func (b *circuitBreakerBase) retryTimeoutArrived() bool {
 // period has been claimed (the timestamp is rewritten when the breaker opens again).
 const retryClaimed = uint64(math.MaxUint64)
 
+// retryImmediately is stored as the deadline when a probe is rolled back before it ran.
+// (It is not 0: 0 is the initial value of a breaker that has never been opened.)
+const retryImmediately = uint64(1)
+
 // tryClaimRetry reports whether the retry timeout of the current open period has
 // elapsed and, if so, claims its probe with a CAS on the deadline itself. Checking
 // the deadline and the state separately let a caller that had seen an expired
@@ -188,11 +192,14 @@ func (b *circuitBreakerBase) resetCurProbeNum() {
 // fromClosedToOpen updates circuit breaker state machine from closed to open.
 // Return true only if current goroutine successfully accomplished the transformation.
 func (b *circuitBreakerBase) fromClosedToOpen(snapshot interface{}) bool {
-	// The retry deadline must be in place before the Open state becomes visible:
-	// a request that sees Open together with a stale (already expired) deadline
-	// would be admitted as a probe at the very instant the breaker opened.
-	b.updateNextRetryTimestamp()
+	// While the breaker is not Open its retry deadline holds retryClaimed (or 0 before the
+	// first opening, converted here), so a request that sees the Open state before the
+	// new deadline is stored below is rejected.
+	// Only the caller that performed the transition writes the deadline: a caller that
+	// lost the CAS (possibly long after it read the clock) must not overwrite it.
+	atomic.CompareAndSwapUint64(&b.nextRetryTimestampMs, 0, retryClaimed) // first opening: see above
 	if b.state.cas(Closed, Open) {
+		b.updateNextRetryTimestamp()
 		for _, listener := range stateChangeListeners {
 			listener.OnTransformToOpen(Closed, *b.rule, snapshot)
 		}
@@ -221,7 +228,7 @@ func (b *circuitBreakerBase) fromOpenToHalfOpen(ctx *base.EntryContext) bool {
 			entry.WhenExit(func(entry *base.SentinelEntry, ctx *base.EntryContext) error {
 				if ctx.IsBlocked() && b.state.cas(HalfOpen, Open) {
 					// The probe never ran: allow the next request to retry at once.
-					atomic.StoreUint64(&b.nextRetryTimestampMs, 0)
+					atomic.StoreUint64(&b.nextRetryTimestampMs, retryImmediately)
 					for _, listener := range stateChangeListeners {
 						listener.OnTransformToOpen(HalfOpen, *b.rule, 1.0)
 					}
@@ -239,10 +246,10 @@ func (b *circuitBreakerBase) fromOpenToHalfOpen(ctx *base.EntryContext) bool {
 // fromHalfOpenToOpen updates circuit breaker state machine from half-open to open.
 // Return true only if current goroutine successfully accomplished the transformation.
 func (b *circuitBreakerBase) fromHalfOpenToOpen(snapshot interface{}) bool {
-	// See fromClosedToOpen: publish the new retry deadline before the Open state.
-	b.updateNextRetryTimestamp()
+	// See fromClosedToOpen: the deadline is retryClaimed while half-open.
 	if b.state.cas(HalfOpen, Open) {
 		b.resetCurProbeNum()
+		b.updateNextRetryTimestamp()
 		for _, listener := range stateChangeListeners {
 			listener.OnTransformToOpen(HalfOpen, *b.rule, snapshot)
 		}
